@@ -51,6 +51,8 @@ type Stats struct {
 	Observations   map[string]int64 // distinct observation keys -> executions
 	Violations     []Violation
 	ByDeviation    map[int]int64
+	// ReplayRetries counts executions thrown away because their prefix did not replay (see explore).
+	ReplayRetries int64
 }
 
 // Scenario builds one fresh instance: body runs as thread 0; check is called
@@ -154,8 +156,17 @@ func (x *explorer) explore(prefix, ns []int, depth int) {
 	}
 	body, check := x.sc()
 	e := runGuarded(prefix, ns, x.opts.Horizon, false, body, x.opts.ExecLimit)
-	if e.Diverged != "" {
-		panic("vsched: nondeterminism while replaying a prefix: " + e.Diverged + fmt.Sprintf(" prefix=%v", prefix))
+	// A prefix that does not replay means something outside the scheduler's control differed between two
+	// runs (with real loopback sockets: the kernel).  The diverged execution is thrown away - it is not one of
+	// the executions being enumerated - and the prefix is run again on a fresh instance; only a divergence
+	// that persists is fatal.  Every retry is counted and reported.
+	for attempt := 0; e.Diverged != ""; attempt++ {
+		if attempt == 4 {
+			panic("vsched: nondeterminism while replaying a prefix (5 attempts): " + e.Diverged + fmt.Sprintf(" prefix=%v", prefix))
+		}
+		x.st.ReplayRetries++
+		body, check = x.sc()
+		e = runGuarded(prefix, ns, x.opts.Horizon, false, body, x.opts.ExecLimit)
 	}
 	obs, viol := check(e)
 	counted := depth >= x.opts.ShardDepth || x.opts.ShardIndex == 0 || x.opts.ShardCount <= 1
